@@ -19,8 +19,8 @@ ASSUMPTIONS = [
 BATCH = {"quick": 3, "thorough": 6}
 TIMEOUT = {"quick": 1500, "thorough": 7200}
 FLOORS = {
-    "quick": {"c02_rows_compared": 1200, "models_simulated": 40, "w4_argmax_concrete": 10, "w4_segargmax_concrete": 10},
-    "thorough": {"c02_rows_compared": 50000, "models_simulated": 500, "w4_argmax_concrete": 100, "w4_segargmax_concrete": 100},
+    "quick": {"c02_rows_compared": 1200, "models_simulated": 40},
+    "thorough": {"c02_rows_compared": 50000, "models_simulated": 500},
 }
 NEEDED_FEATURES = ["mixed_discrete", "two_cont_choices", "filters", "vf_lcm", "vf_ref", "vf_random", "no_cont_choice", "three_cont_choices"]
 
